@@ -202,6 +202,11 @@ def stub_term(p):
     return f"(mkStub {coq.s(p['key'])} {kind} {coq.s(p['path'])} {coq.s(p['ser'])} {coq.s(p['deser'])})"
 
 
+def clean(msg):
+    """exception text without object addresses (replay files and case hashes must be stable)"""
+    return re.sub(r" at 0x[0-9a-f]+", "", msg)
+
+
 def hb(b64text):
     """short stable name of a payload: the model only compares payloads for equality"""
     return env.canon_hash(b64text) if b64text else ""
@@ -340,8 +345,7 @@ class ApiRun:
                 try:
                     ex = U.extract_client(files[path], path)
                 except SyntaxError as e:
-                    ctx.violation(f"emitted {fname} of {s.name} does not compile: {e.msg} (line {e.lineno})", dict(self.case, file=path),
-                                  "stubs.client_does_not_compile")
+                    ctx.violation(f"emitted {fname} of {s.name} does not compile: {e.msg} (line {e.lineno})", dict(self.case, file=path), None)
                     continue
                 cname = next((c for c in ex if c.endswith("AsyncClient") == (variant == "Async")), None)
                 ms = ex.get(cname) or {}
@@ -489,7 +493,7 @@ class ApiRun:
                               "response-" + ("pb2" if not self.idx.proto_plus_pkg(self.idx.package_of(m.output_type)) else "proto-plus")]
                      + (["safe-name-suffix"] if self.facts["services"][s.name]["methods"][j]["safe_snake"].endswith("_") else []))
             if not o["ok"] and o.get("stage") == "import":
-                ctx.violation(f"emitted package does not import: {o['error']['exception']}: {o['error']['message'][:200]}", case, "stubs.import_error")
+                ctx.violation(f"emitted package does not import: {o['error']['exception']}: {o['error']['message'][:200]}", case, None)
                 return
             known = None
             if sum(1 for x in s.method if U.snake(x.name) == U.snake(m.name)) > 1:
@@ -528,7 +532,7 @@ class ApiRun:
                                             f"match {blk} with Some b => outcome_eqb_on [{coq.s(chr(42))}] [] (exec b {ra} []) (OSend {opaque(got)}) | None => false end"))
             # ---- the property's own sentences
             if not o["ok"]:
-                ctx.violation(f"{s.name}.{m.name} ({variant}, request as {sp}) raised {o['error']['exception']}: {o['error']['message'][:200]}", case, known)
+                ctx.violation(f"{s.name}.{m.name} ({variant}, request as {sp}) raised {o['error']['exception']}: {clean(o['error']['message'])[:200]}", case, known)
                 continue
             if len(o["calls"]) != 1:
                 ctx.violation(f"{s.name}.{m.name} ({variant}, {sp}): {len(o['calls'])} calls on the channel instead of exactly one", case, known)
@@ -583,7 +587,7 @@ class ApiRun:
         if not o["ok"] or len(o["calls"]) != 1 or o["calls"][0]["path"] != path:
             sig = "stubs.async_legacy_iam_keyerror" if (variant == "Async" and not o["ok"] and o["error"]["exception"] == "KeyError") else None
             ctx.violation(f"{s.name}.{mname} ({variant}, add-iam-methods): "
-                          + (f"raised {o['error']['exception']}: {o['error']['message'][:120]}" if not o["ok"] else f"calls {[c['path'] for c in o['calls']]}")
+                          + (f"raised {o['error']['exception']}: {clean(o['error']['message'])[:120]}" if not o["ok"] else f"calls {[c['path'] for c in o['calls']]}")
                           + f" instead of one call to {path}", case, sig)
             return
         got = type(sent[0])()
